@@ -32,10 +32,12 @@ def case_from_tlc(obj, h, g):
     n = len(files)
     if n == 1:
         runs = [[1], [1]]                      # the same analysis twice in one process
+        fresh = [False, False]
     else:
         # every order and every sub-/superset of the pair, plus a repetition, in ONE process
         runs = [[1, 2], [2, 1], [2], [1], [1, 2]]
-    return {"case": "tlc-" + h, "files": files, "runs": runs, "layout": int(h[:6], 16) % 1000}
+        fresh = [False, True, True, False, False]       # other orders / subsets also in fresh processes
+    return {"case": "tlc-" + h, "files": files, "runs": runs, "fresh": fresh, "layout": int(h[:6], 16) % 1000}
 
 
 def nontrivial(rec):
